@@ -182,7 +182,7 @@ def remove (pr : Probe K Q) : SM K V Q (Option V) := do
   | none => pure none
   | some i =>
     let p ← remove_index_read i
-    unwindWith (dropV E p.2) (dropK p.1)
+    unwindWith (leak (.v p.2)) (dropK p.1)   -- the value already sits in the return place: leaked
     pure (some p.2)
 
 def remove_entry (pr : Probe K Q) : SM K V Q (Option (K × V)) := do
@@ -190,28 +190,30 @@ def remove_entry (pr : Probe K Q) : SM K V Q (Option (K × V)) := do
   | none => pure none
   | some i => pure (some (← remove_index_read i))
 
-/-- `existing_pair.map(|(_, v)| v)`: the supplied key that came back is dropped. -/
+/-- `existing_pair.map(|(_, v)| v)`: the supplied key that came back is dropped.  If that
+    drop unwinds, the value has already been moved into the return place, which rustc does
+    not drop on this path (observed on the real crate: the old value is leaked). -/
 def dropReturnedKey (o : Option (K × V)) : SM K V Q (Option V) :=
   match o with
   | none => pure none
   | some (k, v) => do
-    unwindWith (dropV E v) (dropK k)
+    unwindWith (leak (.v v)) (dropK k)
     pure (some v)
 
 def insert (k : K) (v : V) : SM K V Q (Option V) := do
   let (_, existing) ← insert_ii E k v false
-  dropReturnedKey E existing
+  dropReturnedKey existing
 
 def checked_insert (k : K) (v : V) : SM K V Q (Option (Option V)) := do
   let len ← getLen
   let cap ← getCap
   if len < cap then
     let (_, existing) ← insert_ii E k v false
-    pure (some (← dropReturnedKey E existing))
+    pure (some (← dropReturnedKey existing))
   else
     match ← insert_ii_for_full E k v false with
     | none => pure none
-    | some (_, p) => pure (some (← dropReturnedKey E (some p)))
+    | some (_, p) => pure (some (← dropReturnedKey (some p)))
 
 def insert_key_value (k : K) (v : V) : SM K V Q (Option (K × V)) := do
   let (_, existing) ← insert_ii E k v true
@@ -219,7 +221,7 @@ def insert_key_value (k : K) (v : V) : SM K V Q (Option (K × V)) := do
 
 def insert_unchecked (k : K) (v : V) : SM K V Q (Option V) := do
   let (_, existing) ← insert_i E k v false
-  dropReturnedKey E existing
+  dropReturnedKey existing
 
 /-- `get`, `get_key_value`: slot position and the stored pair (a reference). -/
 def get (pr : Probe K Q) : SM K V Q (Option (Nat × (K × V))) := do
